@@ -35,8 +35,8 @@ func workloads() map[string]families.Workload {
 		}
 		// every column type x repetition (flat24) and nested repetition
 		// (document): the multi-page layout, one codec each in quick
-		for _, w := range families.Workloads([]string{"flat24", "document"}, families.Codecs3()) {
-			if thoroughTier || (strings.HasSuffix(w.Name, "/multipage") && (strings.Contains(w.Name, "flat24/uncompressed") || strings.Contains(w.Name, "document/snappy"))) {
+		for _, w := range families.Workloads([]string{"flat24", "document", "nestrep", "nest16"}, families.Codecs3()) {
+			if thoroughTier || (strings.HasSuffix(w.Name, "/multipage") && (strings.Contains(w.Name, "flat24/uncompressed") || strings.Contains(w.Name, "document/snappy") || strings.Contains(w.Name, "nestrep/snappy") || strings.Contains(w.Name, "nest16/gzip"))) {
 				wlCache[w.Name] = w
 			}
 		}
